@@ -62,6 +62,9 @@ fn gen_eintr(rng: &mut Rng, len: usize) -> Vec<u32> {
 
 pub fn gen_rstack(rng: &mut Rng, len: usize) -> RStack {
     let cap = |rng: &mut Rng| if rng.chance(1, 4) { rng.range(1, 300) as u32 } else { *rng.pick(&CAPS) };
+    if rng.chance(1, 10) {
+        return RStack::Wrapper;
+    }
     match rng.below(10) {
         0 | 1 => RStack::Raw,
         2 => RStack::RawRef,
@@ -104,6 +107,9 @@ pub fn add_reader_fault(rng: &mut Rng, cfg: &mut ReaderCfg, len: usize, hot: &[u
 
 pub fn gen_wstack(rng: &mut Rng) -> WStack {
     let cap = |rng: &mut Rng| if rng.chance(1, 4) { rng.range(1, 300) as u32 } else { *rng.pick(&CAPS) };
+    if rng.chance(1, 10) {
+        return WStack::Wrapper;
+    }
     match rng.below(10) {
         0 | 1 => WStack::Raw { by_ref: true },
         2 => WStack::Raw { by_ref: false },
@@ -188,6 +194,7 @@ pub fn rstack_name(s: RStack) -> String {
         RStack::Buf { cap, by_ref } => format!("read:{}BufReader({})", if by_ref { "&mut " } else { "" }, cap_class(cap)),
         RStack::Chain { .. } => "read:Chain".into(),
         RStack::ChainBuf { cap, .. } => format!("read:&mut BufReader({})<Chain>", cap_class(cap)),
+        RStack::Wrapper => "read:path wrapper (load_*) over the File seam".into(),
     }
 }
 
@@ -196,6 +203,7 @@ pub fn wstack_name(s: WStack) -> String {
         WStack::Raw { by_ref } => format!("write:{}raw", if by_ref { "&mut " } else { "" }),
         WStack::Buf { cap, by_ref } => format!("write:{}BufWriter({})", if by_ref { "&mut " } else { "" }, cap_class(cap)),
         WStack::Line { by_ref } => format!("write:{}LineWriter", if by_ref { "&mut " } else { "" }),
+        WStack::Wrapper => "write:path wrapper (save_ppm) over the File seam".into(),
     }
 }
 
